@@ -38,6 +38,7 @@ def specs(tier):
     add('XX = /\\.\\*\\+\\?/;\nYY = /\\(\\)\\[\\]\\{\\}\\|\\$/;\nstart = XX | YY;\n')
     add('TT = /\\x7E\\x21/;\nstart = TT "~" | "`";\n')
     add('AA = /i(f|n)/;\nID = /[a-z]+/;\nNUM = /[0-9]+/;\nstart = "if" "in" AA ID NUM;\n')   # a terminal owning no state in the middle of the definition order
+    add('ID = /[a-z]+/;\nNL = /\\x0A/;\nSP = / =/;\nstart = ID NL | ID SP ID;\n')   # tokens (not skipped) that begin with a line terminator or a space
     if tier == 'thorough':
         for f in sorted(os.listdir(FIXTURES)):
             if f.endswith('.grammar'):
